@@ -102,6 +102,9 @@ def compare(a, b):
             s = max(np.abs(x).max(), np.abs(y).max(), 1e-300)
             if x.shape != y.shape or np.abs(x - y).max() > 1e-9 * s:
                 bad.append((k, _l(x), _l(y), "wrong-value"))
+        elif k == "start":
+            if np.any(np.abs(np.asarray(x, dtype=float) - np.asarray(y, dtype=float)) > 1e-12):
+                bad.append((k, _l(x), _l(y), "wrong-value"))
         elif k == "fit:values":
             sig = a["fit:errors"]
             tol = np.where(sig > 0, 0.03 * sig, 1e-9 * np.maximum(1.0, np.abs(x)))
@@ -753,6 +756,42 @@ def fam_models(v):
             return build
 
         cases.append(("model/" + name, mk(spec), mk(fn)))
+
+    # default values written as integers or as floats are the same specification - for every backend and for the values assigned afterwards
+    def lin_int(x, a=1, b=2):
+        return a * x + b
+
+    def lin_float(x, a=1.0, b=2.0):
+        return a * x + b
+
+    for backend in ("iminuit", "scipy"):
+        for opname in ("plain", "fix-b-0.5", "set-a-2.5", "setall", "limit-a"):
+
+            def mk2(model, backend=backend, opname=opname):
+                def build():
+                    with warnings.catch_warnings():
+                        warnings.simplefilter("ignore")
+                        f = kafe2.XYFit([x, y], model, minimizer=backend)
+                        f.add_error("y", val.ey)
+                        if opname == "fix-b-0.5":
+                            f.fix_parameter("b", 0.5)
+                        elif opname == "set-a-2.5":
+                            f.set_parameter_values(a=2.5)
+                        elif opname == "setall":
+                            f.set_all_parameter_values([1.25, 0.75])
+                        elif opname == "limit-a":
+                            f.limit_parameter("a", 0.25, 1.05)
+                        out = {"start": np.asarray(f.parameter_values, dtype=float), "cost@start": float(f.cost_function_value)}
+                        f.do_fit()
+                        out["fit:values"] = np.asarray(f.parameter_values, dtype=float)
+                        out["fit:errors"] = np.asarray(f.parameter_errors, dtype=float)
+                        out["fit:cost"] = float(f.cost_function_value)
+                        out["fit:ndf"] = int(f.ndf)
+                    return out
+
+                return build
+
+            cases.append(("model/int-defaults/%s/%s" % (backend, opname), mk2(lin_int), mk2(lin_float)))
     return cases
 
 
